@@ -8,7 +8,7 @@
    Not proved: that inserting whitespace or a comment between two tokens leaves the token sequence unchanged (a fact about
    the 37 regexes under the longest-match rule), and that the tree mirrors the abstract document (the mirror oracle of the
    check decides that on generated documents in four layouts). *)
-From AidlV Require Import Model.LrDriver Proofs.Sim Proofs.Typing Proofs.Lockstep.
+From AidlV Require Import Model.LrDriver Proofs.Sim Proofs.Typing Proofs.Lockstep Proofs.LexProgress.
 
 Theorem C02_tree_is_a_function_of_the_tokens : forall cx1 cx2,
   length (cx_lc cx1) = S (length (cx_src cx1)) -> length (cx_lc cx2) = S (length (cx_src cx2)) ->
@@ -23,6 +23,12 @@ Print Assumptions C02_tree_is_a_function_of_the_tokens.
 Theorem C02_same_tokens_decidable : forall fuel s1 o1 s2 o2, lexsim_b fuel s1 o1 s2 o2 = true -> lexsim (s1, o1) (s2, o2).
 Proof. exact lexsim_b_sound. Qed.
 Print Assumptions C02_same_tokens_decidable.
+
+(* the token sequence does not depend on where the text sits: the same text read from two different offsets gives the
+   same tokens (so the theorem applies to a document moved down a file by a header, up to the header's own tokens) *)
+Theorem C02_tokens_do_not_depend_on_the_offset : forall s o1 o2, lexsim (s, o1) (s, o2).
+Proof. intros s o1 o2. exact (lexsim_refl (length s) s o1 o2 (le_n _)). Qed.
+Print Assumptions C02_tokens_do_not_depend_on_the_offset.
 
 (* erasure keeps everything C02 lists: an example of what survives *)
 Example C02_ex_erase :
